@@ -239,6 +239,26 @@ def perm_ban_cases():
     return out
 
 
+def v6_list_cases():
+    """IPv6 entry shapes in both lists: a whitelisted single host (exact entry or /128) and a blacklisted peer (exact, /128, /127) that
+    shares 32 / 48 / 64 / 96+ bits with it.  Oracle: a blacklisted address that is not ITSELF whitelisted is never authenticated; the
+    whitelisted host is served even when blacklisted."""
+    out = []
+    black = {0: ([BLACK, 1, 1], [UNBLACK, 1]), 1: ([BLACKC, 1, 1], [UNBLACKC, 1]), 2: ([BLACKW, 1, 1], [UNBLACKW, 1])}
+    for peer_fam in (1, 3, 4, 5, 0):
+        host_fam = 0 if peer_fam == 0 else 1
+        f = {0: host_fam, 1: peer_fam}
+        for wc in (0, 1):
+            for bk in (0, 1, 2):
+                add, rem = black[bk]
+                for order in (0, 1):
+                    lists = [[WHITE, 0, wc], add] if order == 0 else [add, [WHITE, 0, wc]]
+                    out.append(case_of(SETUP2 + lists + [[BLACK, 0, 1], msg(2, 0, new=1), msg(2, B), msg(1, A), msg(1, A, key=-2), msg(1, 0, new=1, tun=1),
+                                                         [UNWHITE, 0, wc], msg(1, B), msg(2, B), rem, msg(2, B), msg(2, B, key=-2)], fam=f))
+                out.append(case_of(SETUP2 + [add, [WHITE, 0, wc], [RESTART, 0], [OPEN, 1, 0], [OPEN, 2, 1, 1], msg(2, 0, new=1), msg(2, B), msg(1, A), msg(1, A, key=-2)], fam=f))
+    return out
+
+
 def restart_cases():
     """blacklist entries of every form (exact IP / CIDR, 1 h / permanent) must still gate after a restart over the same
     storage; lapsed short-lived entries must not come back; bans and failure counts are in memory only"""
@@ -288,7 +308,7 @@ def random_case(rng, nconn=3, naddr=2, length=None):
     """mostly-valid flows (phase 1 then a response to it) interleaved with administrative events and noise"""
     ops = [[REGISTER], [REGISTER], [REGISTER], [EXPIRE, E]]
     addr_of = {k: rng.randrange(naddr) for k in range(1, nconn + 1)}
-    fam = {a: rng.choice([0, 0, 1, 2]) for a in range(naddr)}
+    fam = {a: rng.choice([0, 0, 1, 2, 1, 3, 4, 5]) for a in range(naddr)}
     shape = lambda a: rng.choice([0, 1, 2, 3] if fam[a] == 0 else [0, 1, 2])
     for k in range(1, nconn + 1):
         ops.append([OPEN, k, addr_of[k], shape(addr_of[k])])
@@ -571,6 +591,7 @@ def run(ctx, only_cases=None):
         cases += shape_cases()
         cases += overlap_cases()
         cases += covering_entry_cases()
+        cases += v6_list_cases()
         cases += perm_ban_cases()
         cases += reban_cases(12 if thorough else 4)
     outs = run_parallel(binary, cases)
